@@ -470,6 +470,10 @@ func (st *State) strMap(op string, s *Term, f func(string) string) *Term {
 	if s.Const {
 		return Str(f(s.Str))
 	}
+	if s.BS != nil {
+		// ASCII semantics (bytes >= 0x80 unchanged); Go's Unicode-aware mapping is outside the claim
+		return bsTerm(bsMapASCII(s.BS, op == "str.to_lower"))
+	}
 	return &Term{S: "(" + op + " " + s.S + ")", Sort: SStr}
 }
 
@@ -480,6 +484,9 @@ func (st *State) trimCutset(s, cut *Term) *Term {
 	}
 	if s.Const {
 		return Str(strings.Trim(s.Str, cut.Str))
+	}
+	if s.BS != nil {
+		return bsTerm(bsTrimByte(s.BS, cut.Str[0]))
 	}
 	// result r: s = pre ++ r ++ suf, pre and suf consist only of the cut byte, r neither starts nor ends with it
 	r := st.freshVar("trim", SStr)
@@ -522,15 +529,58 @@ func (st *State) strSplit(s, sep *Term) Val {
 			st.eng.Res.Incomplete = append(st.eng.Res.Incomplete, "strings.Split: more than 3 separators cut off (bound)")
 			st.fail("unwind", "split bound")
 		}
-		idx := &Term{S: "(str.indexof " + rest.S + " " + sep.S + " 0)", Sort: SBV(64)}
-		i := fromInt(64, idx.S)
+		var i *Term
+		if rest.BS != nil {
+			i, _ = bsIndexByte(rest.BS, sep.Str[0])
+		} else {
+			idx := &Term{S: "(str.indexof " + rest.S + " " + sep.S + " 0)", Sort: SBV(64)}
+			i = fromInt(64, idx.S)
+		}
 		parts = append(parts, StrSub(rest, BV(64, 0), i))
 		rest = StrSub(rest, Arith("+", i, BV(64, 1), true), StrLen(rest))
 	}
 	return nil
 }
 
+// bsDecimal: decimal text of an unsigned value known to be < 10^maxDigits (byte-vector mode).
+func (st *State) bsDecimal(t *Term, maxDigits int) *Term {
+	w := t.Sort.W
+	// digits d[k] = (t / 10^k) % 10, number of digits n = 1 + #(k>=1 with t >= 10^k)
+	pow := uint64(1)
+	var digs []*Term
+	n := BV(64, 1)
+	for k := 0; k < maxDigits; k++ {
+		d := Arith("%", Arith("/", t, BV(w, pow), false), BV(w, 10), false)
+		digs = append(digs, st.name(Arith("+", Resize(d, 8, false), BV(8, '0'), false), "dig"))
+		if k >= 1 {
+			n = Ite(Cmp(">=", t, BV(w, pow), false), idx64(k+1), n)
+		}
+		pow *= 10
+	}
+	n = st.name(n, "ndig")
+	out := &BStr{ctx: st, Len: n}
+	// out[j] = digit index n-1-j
+	for j := 0; j < maxDigits; j++ {
+		r := BV(8, 0)
+		for k := maxDigits - 1; k >= 0; k-- {
+			r = Ite(bvEq(Arith("+", idx64(j), idx64(k+1), false), n), digs[k], r)
+		}
+		out.B = append(out.B, st.name(r, "decb"))
+	}
+	return bsTerm(out)
+}
+
 func (st *State) intToStr(t *Term, sg bool) *Term {
+	if BVStrMode {
+		// bounded: values below 10^6 (unwinding assertion on the rest)
+		lim := BV(t.Sort.W, 1000000)
+		ok := Cmp("<", t, lim, false)
+		if !st.branch(ok) {
+			st.eng.Res.Incomplete = append(st.eng.Res.Incomplete, "integer formatting: value >= 10^6 outside the stated bound")
+			st.fail("unwind", "itoa bound")
+		}
+		return st.bsDecimal(t, 6)
+	}
 	// only non-negative values are converted exactly; negative ones get "-" prefix
 	i := intOf(t)
 	if sg && t.I == "" {
@@ -554,6 +604,31 @@ func (st *State) parseUint(s *Term, args []Val) Val {
 		}
 		if ok {
 			return TupleVal{BV(64, v), IfaceVal{}}
+		}
+		return TupleVal{BV(64, 0), st.newErr(Str("parse error"))}
+	}
+	if s.BS != nil {
+		// all bytes digits, 1 <= len <= 9 (longer digit strings: stated bound)
+		b := s.BS
+		okLen := And(Cmp(">=", b.Len, idx64(1), false), Cmp("<=", b.Len, idx64(9), false))
+		allDig := True
+		val := BV(64, 0)
+		for i := 0; i < len(b.B) && i < 9; i++ {
+			in := Cmp("<", idx64(i), b.Len, false)
+			isD := And(Cmp(">=", b.B[i], BV(8, '0'), false), Cmp("<=", b.B[i], BV(8, '9'), false))
+			allDig = And(allDig, Or(Not(in), isD))
+			dv := Resize(Arith("-", b.B[i], BV(8, '0'), false), 64, false)
+			val = Ite(in, Arith("+", Arith("*", val, BV(64, 10), false), dv, false), val)
+		}
+		if len(b.B) > 9 {
+			long := Cmp(">", b.Len, idx64(9), false)
+			if st.branch(long) {
+				st.eng.Res.Incomplete = append(st.eng.Res.Incomplete, "ParseUint: more than 9 digits outside the stated bound")
+				st.fail("unwind", "parseuint bound")
+			}
+		}
+		if st.branch(And(okLen, allDig)) {
+			return TupleVal{st.name(val, "pu"), IfaceVal{}}
 		}
 		return TupleVal{BV(64, 0), st.newErr(Str("parse error"))}
 	}
@@ -653,6 +728,15 @@ const hexdigits = "0123456789abcdef"
 func (st *State) hexByte(b *Term) *Term {
 	if b.Const {
 		return Str(fmt.Sprintf("%02x", b.U))
+	}
+	if BVStrMode {
+		nib := func(n *Term) *Term {
+			lt := Cmp("<", n, BV(8, 10), false)
+			return Ite(lt, Arith("+", n, BV(8, '0'), false), Arith("+", n, BV(8, 'a'-10), false))
+		}
+		hiN := Arith(">>", b, BV(8, 4), false)
+		loN := Arith("&", b, BV(8, 15), false)
+		return bsTerm(&BStr{ctx: st, Len: BV(64, 2), B: []*Term{nib(hiN), nib(loN)}})
 	}
 	hi := fmt.Sprintf("(bv2nat ((_ extract 7 4) %s))", b.S)
 	lo := fmt.Sprintf("(bv2nat ((_ extract 3 0) %s))", b.S)
